@@ -114,7 +114,7 @@ fn monitor_result(rec: &mut Rec, n: usize, what: &str, r: &Sop, want: &[bool], i
     }
     let l = Lut::from(r);
     let lm = Model::from_blocks(n, l.blocks());
-    rec.chk("denotes-via-lut", lm.bits == want && l.num_vars() == n, what, || format!("{}: Lut::from(&sop) = {} is not the expected function", what, l));
+    rec.chk("denotes-via-lut", lm.bits == want && l.num_vars() == n && vmon::obs::well_formed(n, l.blocks()).is_ok(), what, || format!("{}: Lut::from(&sop) = {} (blocks {}) is not the expected function as a well-formed table", what, l, vmon::ctx::hex_of_blocks(l.blocks())));
     if !is_result_of_op {
         return;
     }
